@@ -570,15 +570,19 @@ fn res_chains(v: &ViewD, chain: &mut Vec<(Expr, bool)>, in_eb: bool, out: &mut V
 }
 
 /// the unrepaired code never unregisters the error of a `Result` state that is dropped while it is `Err`: a write
-/// to `sig` is inside the class it gets right if no leaf that exists and is in error (for the values `env` before
-/// the write) sits below a condition that reads `sig`
-fn legacy_ok(defs: &[Def], env: &[i64], view: &ViewD, sig: usize) -> bool {
+/// to `sig` (values `env` before, `env2` after it) is inside the class it gets right if no leaf can exist and be in
+/// error at the moment an effect above it re-runs.  The outermost condition above the leaf that reads `sig`
+/// re-runs and drops what is below it; at that moment the conditions between it and the leaf may or may not have
+/// re-run already, and so may the leaf.
+fn legacy_ok(defs: &[Def], env: &[i64], env2: &[i64], view: &ViewD, sig: usize) -> bool {
     let mut leaves = vec![];
     res_chains(view, &mut vec![], false, &mut leaves);
+    let on = |e: &Expr, env: &[i64], side: bool| (eval_pure(defs, env, e) != 0) == side;
     leaves.iter().all(|(chain, c)| {
-        let dropped = chain.iter().any(|(e, _)| reads_of(defs, e).contains(&sig));
-        let present = chain.iter().all(|(e, side)| (eval_pure(defs, env, e) != 0) == *side);
-        !(dropped && present && eval_pure(defs, env, c) != 0)
+        let Some(j) = chain.iter().position(|(e, _)| reads_of(defs, e).contains(&sig)) else { return true };
+        let may_exist = chain[..=j].iter().all(|(e, side)| on(e, env, *side))
+            && chain[j + 1..].iter().all(|(e, side)| on(e, env, *side) || on(e, env2, *side));
+        !(may_exist && (eval_pure(defs, env, c) != 0 || eval_pure(defs, env2, c) != 0))
     })
 }
 
@@ -655,6 +659,12 @@ fn random_case(g: &mut G, name: &str, out: &mut String) {
     for w in 0..writes {
         if dispose_at == Some(w) {
             writeln!(out, "dispose").unwrap();
+            if xcase {
+                // component-local state created by an effect RUN (a body in a branch) lives under that effect's
+                // owner, which the effect's task keeps until it ends; the model disposes it with the region: both
+                // coincide once every task of the unmounted view has been polled
+                writeln!(out, "idle").unwrap();
+            }
         }
         if !lsigs.is_empty() && g.r.chance(1, 3) {
             // a write through a kept handle, between two runs of the executor to idle (see `lexpr`)
@@ -664,11 +674,13 @@ fn random_case(g: &mut G, name: &str, out: &mut String) {
             continue;
         }
         let s = *g.r.pick(&sigs);
-        if legacy && !legacy_ok(&g.defs, &env, &view, s) {
+        let v = g.r.below(5) as i64 - 1;
+        let mut env2 = env.clone();
+        env2[s] = v;
+        if legacy && !legacy_ok(&g.defs, &env, &env2, &view, s) {
             continue;
         }
-        let v = g.r.below(5) as i64 - 1;
-        env[s] = v;
+        env = env2;
         writeln!(out, "set {s} {v}").unwrap();
         if only_idle {
             writeln!(out, "idle").unwrap();
